@@ -222,6 +222,37 @@ func cuts(label string, file []byte, s sections, offsets []int, workers int) {
 	}
 }
 
+// fragReader hands out its data in pieces of 1..max bytes (deterministic sizes).
+type fragReader struct {
+	data  []byte
+	max   int
+	seed  uint32
+	limit int // bytes delivered in pieces; the rest comes whole (the CBOR decoder of the constraint
+	// system re-validates its buffer after every Read, so a large section in small pieces is quadratic)
+	done int
+}
+
+func (f *fragReader) Read(p []byte) (int, error) {
+	if len(f.data) == 0 {
+		return 0, io.EOF
+	}
+	f.seed = f.seed*1664525 + 1013904223
+	n := 1 + int(f.seed>>8)%f.max
+	if f.done >= f.limit {
+		n = len(p) // past the fragmented part: as much as asked for
+	}
+	if n > len(p) {
+		n = len(p)
+	}
+	if n > len(f.data) {
+		n = len(f.data)
+	}
+	copy(p, f.data[:n])
+	f.data = f.data[n:]
+	f.done += n
+	return n, nil
+}
+
 func exercise(label string, ps *prover.ProvingSystem, g *gen.G, allCuts bool, nCuts, win int,
 	prove func(*prover.ProvingSystem) (groth16.Proof, witness.Witness, error)) {
 	for _, raw := range []bool{false, true} {
@@ -257,6 +288,32 @@ func exercise(label string, ps *prover.ProvingSystem, g *gen.G, allCuts bool, nC
 			r2 = equalSystems(ps, back2)
 		}
 		emit("reload\t"+tag+"+junk", r2)
+		// the same bytes delivered in pieces (a pipe, a network body, a slow disk): UnsafeReadFrom takes
+		// any io.Reader and must not depend on how many bytes one Read call returns
+		for _, fr := range []struct {
+			name string
+			max  int
+		}{{"frag1", 1}, {"frag7", 7}, {"frag4k", 4096}} {
+			limit := len(file)
+			if limit > 1<<20 {
+				limit = 64 << 10
+			}
+			var fs prover.ProvingSystem
+			res := "ok"
+			func() {
+				defer func() {
+					if x := recover(); x != nil {
+						res = fmt.Sprintf("panic: %v", x)
+					}
+				}()
+				if _, err := fs.UnsafeReadFrom(&fragReader{data: file, max: fr.max, seed: uint32(len(file)), limit: limit}); err != nil {
+					res = "error: " + err.Error()
+				} else {
+					res = equalSystems(ps, &fs)
+				}
+			}()
+			emit("reload\t"+tag+"+"+fr.name, res)
+		}
 		// convert-to-raw of the reloaded system
 		if bytes.Equal(write(back, true), write(ps, true)) {
 			emit("convert\t"+tag, "ok")
